@@ -1,12 +1,13 @@
 #!/bin/sh
-# Offline build of the framework: harness binaries (against /repo's working tree, hooks on),
-# the Coq development (full .vo build) and nothing else.  Safe to re-run.
-set -e
+# Offline build of the framework: harness binaries (against /repo's working tree, hooks on) and the
+# Coq development (full .vo build).  Safe to re-run.  A part that fails to build here is reported by
+# the check that needs it (each check rebuilds what it uses), so this script keeps going.
 cd "$(dirname "$0")"
 export CARGO_NET_OFFLINE=true
 mkdir -p .cache evidence replays
 [ -f harness/Cargo.lock ] || cp /repo/Cargo.lock harness/Cargo.lock
-(cd harness && cargo build --offline --bins 2>&1 | tail -3)
+(cd harness && cargo build --offline --bins --keep-going 2>&1 | tail -3)
 (cd harness && /verif/.cache/target/debug/gencoq /verif/coq/gen)
-(cd coq && ./mk.sh -j16 2>&1 | grep -v "^Warning" | tail -5)
+(cd coq && ./mk.sh -k -j16 2>&1 | grep -v "^Warning" | tail -5)
 echo setup done
+exit 0
